@@ -80,12 +80,12 @@ func runExplorer(run *report.Run, check string, e *explore.Explorer) {
 	run.States += e.States
 	run.Transitions += e.Transitions
 	run.Validated += e.Transitions
-	if !e.Exhaustive {
-		run.Exhaustive = false
+	if !e.Exhaustive && !e.BoundDone {
+		run.Exhaustive = false // a state cap was hit: this configuration is not fully covered
 	}
 	run.Parts = append(run.Parts, map[string]interface{}{
 		"config": e.Cfg.Name, "states": e.States, "transitions": e.Transitions, "self_loops": e.NoOps,
-		"depth": e.Depth, "closed": e.Exhaustive, "blocked": e.Blocked, "alphabet": len(e.Ops),
+		"depth": e.Depth, "closed": e.Exhaustive, "all_histories_up_to_depth_bound": e.BoundDone, "blocked": e.Blocked, "alphabet": len(e.Ops),
 		"findings": len(e.Findings), "wall_s": time.Since(t0).Seconds(), "dedup": world.HookAvailable,
 	})
 	sigs := make([]string, 0, len(e.Findings))
